@@ -86,6 +86,32 @@ func status(pan bool) int {
 	return 0
 }
 
+// c15Interfere runs OTHER fits while the caller still holds the results of the case's own fit: one of the SAME
+// shape (same n, same number of terms, weighted alike - whatever storage a library might recycle between calls
+// is then recycled at the same offsets) on different data, a larger and a smaller one, and a LOESS closure
+// (itself one fit per evaluation).  Works on copies; never touches the case's slices.  Deterministic.
+func c15Interfere(xs, ys, ws []float64, nterms int) {
+	n := len(xs)
+	if n == 0 || len(ys) != n || (ws != nil && len(ws) != n) || nterms < 1 {
+		return
+	}
+	x2 := cloneF(xs)
+	y2 := make([]float64, n)
+	for i := range y2 {
+		y2[i] = -0.5*ys[n-1-i] + float64(i%3) + 0.25
+	}
+	catch(func() { fit.PolynomialRegression(x2, y2, cloneF(ws), nterms-1) })
+	catch(func() { fit.PolynomialRegression(x2, y2, cloneF(ws), nterms) })
+	if nterms >= 2 {
+		catch(func() { fit.PolynomialRegression(x2, y2, cloneF(ws), nterms-2) })
+	}
+	catch(func() {
+		f := fit.LOESS(x2, y2, 1, 0.8)
+		f(x2[n/2])
+		f(x2[0] - 1)
+	})
+}
+
 func c15Run(raw []byte) (*Line, error) {
 	var c c15Case
 	if err := json.Unmarshal(raw, &c); err != nil {
@@ -167,12 +193,17 @@ func c15Run(raw []byte) (*Line, error) {
 			l.Fs(cols[j])
 		}
 		l.I(status(pan)).Fs(params).B(unmodified())
+		// HISTORY: other fits run while params is still held; params is then read again (a returned slice that
+		// aliases storage the library reuses would have changed)
+		c15Interfere(xs0, ys0, ws0, len(c.Basis))
+		l.Fs(params)
 	case 1:
 		var res fit.PolynomialRegressionResult
 		pan, _ := catch(func() { res = fit.PolynomialRegression(xs, ys, ws, c.Deg) })
 		l.Fs(xs).Fs(ys).B(c.HasW).Fs(ws).I(c.Deg).I(status(pan))
 		if pan {
 			l.I(0).I(0).I(0).I(0).B(unmodified())
+			l.I(0).I(0).I(0)
 			break
 		}
 		if len(c.Qs) == 0 {
@@ -200,13 +231,24 @@ func c15Run(raw []byte) (*Line, error) {
 		var lp []float64
 		lpan, _ := catch(func() { lp = fit.LinearLeastSquares(xs, ys, ws, terms...) })
 		l.I(status(lpan)).Fs(lp).B(unmodified())
+		// HISTORY: other fits run while res and lp are still held; then Coefficients, F at every query and the
+		// twin's parameters are read again
+		c15Interfere(xs0, ys0, ws0, c.Deg+1)
+		l.Fs(res.Coefficients)
+		l.I(len(c.Qs))
+		for _, q := range c.Qs {
+			v := math.NaN()
+			catch(func() { v = res.F(float64(q)) })
+			l.F(v)
+		}
+		l.Fs(lp)
 	case 2:
 		var f func(float64) float64
 		span := float64(c.Span)
 		pan, _ := catch(func() { f = fit.LOESS(xs, ys, c.Deg, span) })
 		l.Fs(xs).Fs(ys).I(c.Deg).F(span).I(status(pan))
 		if pan {
-			l.I(0).B(unmodified())
+			l.I(0).B(unmodified()).I(0)
 			break
 		}
 		if len(c.Qs) == 0 {
@@ -214,26 +256,27 @@ func c15Run(raw []byte) (*Line, error) {
 		}
 		pure := unmodified()
 		l.I(len(c.Qs))
-		var first float64
-		firstPan := false
 		for i, q := range c.Qs {
+			if i == (len(c.Qs)+1)/2 {
+				// HISTORY: other fits and another closure run between two evaluations of this closure; the
+				// remaining queries are new abscissae evaluated after them
+				c15Interfere(xs0, ys0, nil, c.Deg+1)
+			}
 			var v float64
 			qpan, _ := catch(func() { v = f(float64(q)) })
-			if i == 0 {
-				first, firstPan = v, qpan
-			}
 			l.F(float64(q)).I(status(qpan)).F(v)
 			pure = pure && unmodified()
 		}
-		// evaluating again gives the same bits: the closure keeps no state between calls
-		if len(c.Qs) > 0 {
-			var v float64
-			qpan, _ := catch(func() { v = f(float64(c.Qs[0])) })
-			if qpan != firstPan || math.Float64bits(v) != math.Float64bits(first) {
-				pure = false
-			}
-		}
 		l.B(pure && unmodified())
+		// ... and every query is evaluated once more after further fits: the closure keeps no state between
+		// calls and shares none with other fits (status and value are compared with the first evaluation)
+		c15Interfere(xs0, ys0, nil, c.Deg+1)
+		l.I(len(c.Qs))
+		for _, q := range c.Qs {
+			var v float64
+			qpan, _ := catch(func() { v = f(float64(q)) })
+			l.I(status(qpan)).F(v)
+		}
 	default:
 		return nil, fmt.Errorf("bad op")
 	}
@@ -334,8 +377,8 @@ func c15Gen(tier string, rng *rand.Rand, emit func(interface{})) {
 	emit(c15Case{Op: 2, Xs: toF64s([]float64{0, 1, 2}), Ys: toF64s([]float64{1, 2, 3}), Deg: -1, Span: 0.5})
 	emit(c15Case{Op: 2, Xs: toF64s([]float64{0, 1, 2}), Ys: toF64s([]float64{1, 2, 3}), Deg: 1, Span: 0})
 	emit(c15Case{Op: 2, Xs: toF64s([]float64{0, 1, 2}), Ys: toF64s([]float64{1, 2, 3}), Deg: 1, Span: -0.25})
-	emit(c15Case{Op: 2, Xs: []F64{}, Ys: []F64{}, Deg: 1, Span: 0.5, Qs: toF64s([]float64{0})})                                // closest[0] panics
-	emit(c15Case{Op: 2, Xs: toF64s([]float64{1}), Ys: toF64s([]float64{5}), Deg: 0, Span: 1, Qs: toF64s([]float64{1, 2})})       // d = 0 / single point of weight 0
+	emit(c15Case{Op: 2, Xs: []F64{}, Ys: []F64{}, Deg: 1, Span: 0.5, Qs: toF64s([]float64{0})})                                             // closest[0] panics
+	emit(c15Case{Op: 2, Xs: toF64s([]float64{1}), Ys: toF64s([]float64{5}), Deg: 0, Span: 1, Qs: toF64s([]float64{1, 2})})                  // d = 0 / single point of weight 0
 	emit(c15Case{Op: 2, Xs: toF64s([]float64{0, 1, 2, 3}), Ys: toF64s([]float64{1, 2, 3, 4}), Deg: 2, Span: 0.5, Qs: toF64s([]float64{1})}) // too few points
 
 	// ---- PolynomialRegression ----
